@@ -427,6 +427,43 @@ def _sum_precision(node, C):
             return None
 
 
+def _dense_sum_precision(node, C):
+    """Floating type in which the row sums of the DENSE counts are formed: 'float64' if some layer of the conversion chain
+    between the parameter and `.sum(axis=1)` casts to double (np.array(C, dtype=np.float64), .astype(float), np.float64(C)),
+    'native' if the chain reaches the parameter without such a cast, None if it is not recognised."""
+    while True:
+        if isinstance(node, ast.Call) and isinstance(node.func, ast.Attribute) and node.func.attr == 'astype' and \
+                len(node.args) + len(node.keywords) >= 1:
+            t = [u(x) for x in node.args[:1]] + [u(k.value) for k in node.keywords if k.arg == 'dtype']
+            if t and t[0] in _F64:
+                return 'float64'
+            return None
+        if isinstance(node, ast.Call) and isinstance(node.func, ast.Attribute) and node.func.attr in ('copy', 'toarray', 'todense') \
+                and not node.args and not node.keywords:
+            node = node.func.value
+            continue
+        cn = call_name(node) if isinstance(node, ast.Call) else None
+        if cn in ('np.float64', 'np.double') and len(node.args) == 1 and not node.keywords:
+            return 'float64'
+        if cn in _TO_NDARRAY + ('np.asanyarray', 'np.asmatrix'):
+            dt = [k.value for k in node.keywords if k.arg == 'dtype'] + list(node.args[1:2])
+            if any(k.arg not in ('dtype', 'copy', 'order', 'subok', 'ndmin', 'object', 'a') for k in node.keywords):
+                return None
+            if dt:
+                return 'float64' if u(dt[0]) in _F64 else None
+            src = list(node.args[:1]) + [k.value for k in node.keywords if k.arg in ('object', 'a')]
+            if len(src) != 1:
+                return None
+            node = src[0]
+            continue
+        if isinstance(node, ast.Attribute) and node.attr == 'A':
+            node = node.value
+            continue
+        if isinstance(node, ast.Name) and node.id == C:
+            return 'native'
+        return None
+
+
 def _inv_weights(o, sigs, C, label, IW, dense):
     """IW must be  _store(zeros[W > 0], 1 / W[W > 0])  with W the row sums of C."""
     rule4 = 'C04.D4.zero-row'
@@ -466,6 +503,20 @@ def _inv_weights(o, sigs, C, label, IW, dense):
     if v[0] == 'match' and dense and smatch(flat, W, sigs) is None and _counts_of(v[1]['_A'], C):
         # 1-D only if the summed object is a base ndarray (np.matrix sums stay 2-D)
         _dense_ndarray(o, sigs, C, v[1]['_A'], W, 'the row sums `%s` are 1-D' % u(W)[:60])
+    if v[0] == 'match' and dense and _counts_of(v[1]['_A'], C):
+        # dtype provenance of the dense sums: ndarray.sum() accumulates float32 / float16 counts in THAT type, whereas the
+        # sparse sibling casts to float64 first - only an explicit cast to double makes the two arms agree for every dtype
+        prec = _dense_sum_precision(v[1]['_A'], C)
+        rule6 = 'C04.D3.row-orientation.dense-precision'
+        if prec is None:
+            o.missing(rule6, 'conversion chain of the summed dense counts not recognised: %s' % u(v[1]['_A'])[:100])
+        else:
+            o.check(prec == 'float64', rule6, W, 'dense branch: the counts are cast to float64 before the row sums are taken',
+                    'dense branch: the row sums are taken over the counts in the dtype they came in; float32 (float16) counts are '
+                    'summed in single (half) precision, so rows of T sum to 1 only to ~1e-7 and T differs from the sparse result '
+                    '(which casts to float64 first); convert explicitly: np.array(C, dtype=np.float64)',
+                    construct='dense: row sums in float64' if prec == 'float64' else
+                    'dense: row sums of the counts in their incoming dtype')
     if v[0] == 'match' and not dense and _counts_of(v[1]['_A'], C):
         # dtype provenance of the sums: the dense sibling sums the integers exactly and divides in double
         prec = _sum_precision(v[1]['_A'], C)
@@ -672,7 +723,8 @@ def _container(o, p, sigs, elt, inner, what):
         if same is None and sp is None and (unread or vacuous):
             return o.missing(rule, 'recast guard of transpose not recognised: %s' % [u(e)[:80] for e in p.exprs()[1:]])
         return o.check(False, rule, elt, '', msg + '; %s is recast although the types agree (type(C)(x) is not a copy for ndarrays)' % what)
-    return o.decide(sclassify(elt, [inner, '_recast(%s, %s)' % (PRIOR, inner)], {PRIOR, inner}, sigs), rule, elt, '', msg)
+    # (SYM__ and PROBS__ are both functions of the counts: one in the slot of the other is a wrong operand in a located role)
+    return o.decide(sclassify(elt, [inner, '_recast(%s, %s)' % (PRIOR, inner)], {PRIOR, inner, 'SYM__', 'PROBS__'}, sigs), rule, elt, '', msg)
 
 
 # Operations whose result depends on WHICH of the eight containers holds the
@@ -775,7 +827,7 @@ def d3_transpose(ck, mod, sigs):
         # symmetrised counts / 2
         b = smatch(['_S / 2', '_S / 2.0', '_S * 0.5', '0.5 * _S'], e0, sigs)
         if b is None:
-            o.decide(sclassify(e0, ['SYM__ / 2'], {'SYM__', PRIOR}, sigs), rule + '.return', e0, '',
+            o.decide(sclassify(e0, ['SYM__ / 2'], {'SYM__', PRIOR, 'PROBS__'}, sigs), rule + '.return', e0, '',
                      'transpose must return (C_sym / 2, probs, equilibrium)')
         else:
             o.check(True, rule + '.return', e0, 'returns (C_sym/2, T, pi)', '', construct='return (C_sym / 2, probs, equilibrium)')
@@ -838,6 +890,20 @@ def d5_todense(ck, mod):
                      'the element-wise arithmetic downstream; use .toarray() or np.array(x.todense())')
 
 
+def _only_estimator_output(e):
+    """`e` is a pure function of elements 0 / 1 of the estimator's result
+    (T, pi) and of nothing else - in particular not of the counts.  (That the
+    estimator returns exactly that pair is C04.D6.mle-result.)"""
+    while isinstance(e, ast.Call) and isinstance(e.func, ast.Name) and e.func.id == '_recast' and len(e.args) == 2 and not e.keywords:
+        e = e.args[1]               # type(<counts>)(x): the content is x
+    uses = [x for x in ast.walk(e) if isinstance(x, ast.Name) and x.id == 'EST__']
+    if not uses or not closed_over(e, {'EST__'}):
+        return False
+    subs = [x for x in ast.walk(e) if isinstance(x, ast.Subscript) and isinstance(x.value, ast.Name) and x.value.id == 'EST__'
+            and _int_of(x.slice) in (0, 1)]
+    return len(subs) == len(uses)
+
+
 def d5_mle(ck, mod, sigs=None):
     """Densify / re-wrap / unpack rules of `mle` (also run by C12, which
     shares the F7 finding), including the bare-.todense() scan."""
@@ -885,7 +951,11 @@ def d5_mle(ck, mod, sigs=None):
             w0 = [w % d for d in as_is for w in ('np.array(%s)', 'np.asarray(%s)', '%s')]
             w1 = ['np.array(EST__[0])', 'np.asarray(EST__[0])', 'EST__[0]']
         label = 'sparse' if sp else 'dense'
-        o.decide(sclassify(e0, w0, {PRIOR}, sigs), rule + '.rewrap', e0,
+        v0 = sclassify(e0, w0, {PRIOR}, sigs)
+        if v0[0] == 'far' and _only_estimator_output(e0):
+            # wrong operand in a located role: the counts slot carries (a pure function of) the estimator's T / pi alone
+            v0 = ('near', v0[1], v0[2])
+        o.decide(v0, rule + '.rewrap', e0,
                  'counts returned in the input container (type taken before densifying)',
                  'mle must return the counts re-wrapped in the input container: sparsetype(C) with sparsetype = type(C) '
                  'taken BEFORE densifying (np.array for dense input), on every return path',
@@ -1260,11 +1330,56 @@ _COLS = [c % r for r in _RS for c in _COL_OF] + ['_X.sum(axis=_A, keepdims=True)
 _VECS = _RS + ['np.asarray(%s)' % r for r in _RS] + ['%s.flatten()' % r for r in _RS] + ['%s.ravel()' % r for r in _RS]
 
 
+_OTHER_REDUCTIONS = ('max', 'min', 'mean', 'prod', 'std', 'var', 'ptp', 'median', 'amax', 'amin', 'average', 'nanmax', 'nanmin', 'nanmean')
+_COL_WRAP = [c % '_E' for c in _COL_OF]
+_EXTENT_FORMS = ['len(_V)', '_V.shape[0]', '_V.shape[1]', '_V.shape[-1]', '_V.size', 'np.linalg.norm(_V)', 'float(len(_V))']
+
+
+def _other_normaliser(den, name, matrix):
+    """`den` is positively NOT the sums that normalise `name` (the matrix
+    that is divided, matrix=True, or the vector of its row sums): it is a
+    different reduction of that very operand - max / min / mean / prod / ...
+    (along an axis, as a column or a scalar), its extent (len, shape, size),
+    its Euclidean norm, or, for the matrix, its grand total (every row of
+    X / X.sum() sums to rowsum / total, not to one).  The quotient is then a
+    different function of the same operand in the located role."""
+    d = _strip_scalar_index(den)
+    if matrix:
+        b = _pm(_COL_WRAP, d)
+        if b is not None:
+            d = b['_E']
+    for w in ('np.asarray(_E)', 'np.array(_E)', '_E.flatten()', '_E.ravel()', '_E.astype(float)'):
+        b = _pm(w, d)
+        if b is not None:
+            d = b['_E']
+    if isinstance(d, ast.Call):
+        cn = call_name(d) or ''
+        recv = None
+        if isinstance(d.func, ast.Attribute) and isinstance(d.func.value, ast.Name) and d.func.value.id == name and d.func.attr in _OTHER_REDUCTIONS:
+            recv = d.args
+        elif cn.split('.')[0] in ('np', 'numpy') and cn.split('.')[-1] in _OTHER_REDUCTIONS and len(cn.split('.')) == 2 and d.args and \
+                isinstance(d.args[0], ast.Name) and d.args[0].id == name:
+            recv = d.args[1:]
+        if recv is not None and all(const_value(a) is not None or _is_none(a) for a in recv) and \
+                all(k.arg in ('axis', 'keepdims') and isinstance(k.value, (ast.Constant, ast.UnaryOp)) for k in d.keywords):
+            return True
+    b = _pm(_EXTENT_FORMS, d)
+    if b is not None and isinstance(b['_V'], ast.Name) and b['_V'].id == name:
+        return True
+    if matrix:
+        b = _pm(['_V.sum()', '_V.sum(axis=None)'], _strip_scalar_index(den))
+        if b is not None and isinstance(b['_V'], ast.Name) and b['_V'].id == name:
+            return True
+    return False
+
+
 def _wrong_quotient(e, cols, scope, own=()):
     """`e` is positively a DIFFERENT quotient in the role of T (cols: the
     column-of-row-sums forms) or of pi (cols None): the reciprocal of the
-    accepted form, a row-vector broadcast, or sums taken of another matrix
-    than the one that is divided.  Anything else is not recognised (False)."""
+    accepted form, a row-vector broadcast, sums taken of another matrix
+    than the one that is divided, or the operand divided by a different
+    reduction of itself (_other_normaliser).  Anything else is not
+    recognised (False)."""
     if isinstance(e, ast.Call) and call_name(e) in ('np.divide', 'np.true_divide') and len(e.args) == 2 and not e.keywords:
         num, den = e.args
     elif isinstance(e, ast.BinOp) and isinstance(e.op, ast.Div):
@@ -1273,6 +1388,8 @@ def _wrong_quotient(e, cols, scope, own=()):
         return False
     if not closed_over(e, scope):
         return False
+    if isinstance(num, ast.Name) and num.id in scope and _other_normaliser(den, num.id, cols is not None):
+        return True
     if cols is not None:
         for a, b, swapped in ((num, den, False), (den, num, True)):
             if not isinstance(a, ast.Name):
@@ -2617,7 +2734,9 @@ def d6_normalize(ck, mod, sigs):
         p = p0.abbrev({u(rn[0]): 'PROBS__'}, sigs) if rn else p0
         e0, e1, e2 = p.value.elts
         bad = 'normalize must return (C, _row_normalize(C), eq_probs(T))'
-        o.decide(sclassify(e0, [PRIOR], {PRIOR}, sigs), rule, e0, 'counts (with prior) returned', bad, construct='C -> %s' % u(e0)[:80])
+        # (the normalised matrix is itself a function of the counts: returning it in the counts slot is a wrong operand, not an unknown one)
+        o.decide(sclassify(e0, [PRIOR], {PRIOR, 'PROBS__'} if rn else {PRIOR}, sigs), rule, e0, 'counts (with prior) returned', bad,
+                 construct='C -> %s' % u(e0)[:80])
         o.decide(sclassify(e1, ['PROBS__'], {PRIOR, 'PROBS__'}, sigs) if rn else sclassify(e1, ['_row_normalize(%s)' % PRIOR], {PRIOR}, sigs),
                  rule, e1, 'T = row-normalised counts', bad, construct='T -> %s' % u(e1)[:80])
         _pops(o, rule, p, calc, sigs, e2, ['eq_probs(PROBS__)'], {PRIOR, 'PROBS__'}, 'pi = stationary vector of that T', bad,
